@@ -231,7 +231,10 @@ impl Property for C16 {
         let mut p2 = payload.clone();
         p2.push(1);
         let approvals: Vec<Message> = match case.dev {
-            Dev::None | Dev::DeliveredTwice | Dev::ResubmittedApprovalAfterDelivery | Dev::ReapprovedOtherContentAfterDelivery => vec![mk(&app, chain, id, src, &payload)],
+            Dev::None | Dev::DeliveredTwice | Dev::ReapprovedOtherContentAfterDelivery => vec![mk(&app, chain, id, src, &payload)],
+            // (a batch of two: another message, for the other app, stands in front of the studied one - the whole batch is
+            // what gets re-submitted later, when both of its members are known to the gateway)
+            Dev::ResubmittedApprovalAfterDelivery => vec![mk(&other_app, chain, &format!("{}-neighbour", id), src, &payload), mk(&app, chain, id, src, &payload)],
             Dev::NeverApproved => vec![],
             Dev::ApprovedForOtherApp => vec![mk(&other_app, chain, id, src, &payload)],
             Dev::ApprovedForAddressKindTwin => vec![mk(&kind_twin(&env, &app), chain, id, src, &payload)],
